@@ -131,6 +131,7 @@ type Frame struct {
 	pc            int
 	defers        []deferRec
 	bind          []Val
+	fvEntry       []Val // values of the captured variables at entry (function literals under contract)
 	cut           map[*ssa.BasicBlock]*loopCut
 	unwinding     bool
 	retTo         ssa.Value
